@@ -217,7 +217,7 @@ struct G<'a, 'b> {
 
 const CONSTS: &str = "const kint = 42\n\npub const kfloat: Float = 1.5\n\nconst kstr = \"s\"\n\nconst klist = [1, 2]\n\nconst ktup: #(Int, String) = #(1, \"a\")\n\n";
 
-const PRELUDE: &str = "pub type Color {\n  Red\n  Green\n}\n\npub type Box(a) {\n  Box(value: a)\n}\n\npub type Pair(a, b) {\n  Pair(first: a, second: b)\n}\n\npub type Rec {\n  Rec(name: String, age: Int)\n}\n\npub type Shape {\n  Circle(radius: Float)\n  Square(radius: Float, side: Int)\n}\n\npub type Ints =\n  List(Int)\n\n";
+const PRELUDE: &str = "pub type Color {\n  Red\n  Green\n}\n\npub type Box(a) {\n  Box(value: a)\n}\n\npub type Pair(a, b) {\n  Pair(first: a, second: b)\n}\n\npub type Rec {\n  Rec(name: String, age: Int)\n}\n\npub type Shape {\n  Circle(radius: Float)\n  Square(radius: Float, side: Int)\n}\n\npub type Ints =\n  List(Int)\n\npub type IntFn =\n  fn(Int) -> Int\n\n";
 
 impl<'a, 'b> G<'a, 'b> {
     fn fresh(&mut self, base: &str) -> String {
@@ -235,6 +235,19 @@ impl<'a, 'b> G<'a, 'b> {
 
     /// how the type is written in an annotation: structurally, or through an alias of this module or of `lib`
     fn annot_of(&mut self, t: &T) -> String {
+        if let T::Fn(ps, r) = t {
+            // a function type through an alias (of this module or of `lib`), half of the time
+            if ps.len() == 1 && ps[0] == T::Int && **r == T::Int && self.c.chance(128) {
+                self.tag("alias in annotation");
+                self.tag("function type through an alias");
+                return if self.c.chance(128) {
+                    "IntFn".into()
+                } else {
+                    self.tag("alias from another module");
+                    "lib.Handler".into()
+                };
+            }
+        }
         if self.c.chance(70) {
             match t {
                 T::List(e) if **e == T::Int => {
@@ -290,6 +303,7 @@ impl<'a, 'b> G<'a, 'b> {
                 3 if depth > 0 => T::Adt("Pair".into(), vec![self.gen_type(depth - 1), self.gen_type(depth - 1)]),
                 _ => T::Adt("Shape".into(), vec![]),
             },
+            _ if self.c.chance(70) => T::Fn(vec![T::Int], Box::new(T::Int)),
             _ => {
                 let n = 1 + self.c.weighted(&[3, 2, 1]);
                 T::Fn((0..n).map(|_| self.gen_type(0)).collect(), Box::new(self.gen_type(0)))
@@ -320,6 +334,31 @@ impl<'a, 'b> G<'a, 'b> {
                 }
                 return;
             }
+        }
+        // a call of a function-typed local that returns this type
+        let callable: Vec<(String, Vec<T>)> = self
+            .env
+            .iter()
+            .filter_map(|(n, ty)| match ty {
+                T::Fn(ps, r) if **r == *t => Some((n.clone(), ps.clone(), ty.clone())),
+                _ => None,
+            })
+            .filter(|(n, _, ty)| self.env.iter().rev().find(|(m, _)| m == n).map(|(_, l)| l == ty).unwrap_or(false) && !self.opaque.contains(n))
+            .map(|(n, ps, _)| (n, ps))
+            .collect();
+        if !callable.is_empty() && self.c.chance(if depth == 0 { 40 } else { 70 }) {
+            let (n, ps) = callable[self.c.below(callable.len())].clone();
+            self.tag("call of a function-typed local");
+            self.out.push_str(&n);
+            self.out.push('(');
+            for (i, pt) in ps.iter().enumerate() {
+                if i > 0 {
+                    self.out.push_str(", ");
+                }
+                self.expr(pt, 0);
+            }
+            self.out.push(')');
+            return;
         }
         if self.f.constants {
             if let Some((n, _)) = self.consts.iter().find(|(_, ty)| ty == t).cloned() {
@@ -1316,7 +1355,7 @@ pub struct Program {
 }
 
 pub fn gen_program(c: &mut Choices, f: &Features) -> Program {
-    let lib = "pub type Nums =\n  List(Int)\n\npub type Name =\n  String\n\npub type Entry =\n  #(Int, Name)\n\npub fn same(x: a) -> a {\n  x\n}\n\npub fn twice(x: Int) -> Int {\n  x + x\n}\n\npub type Inner {\n  Inner(v: Int, w: String)\n}\n\npub type Outer {\n  Outer(inner: Inner, n: Int)\n}\n\npub fn outer() -> Outer {\n  Outer(Inner(1, \"s\"), 2)\n}\n".to_string();
+    let lib = "pub type Nums =\n  List(Int)\n\npub type Name =\n  String\n\npub type Entry =\n  #(Int, Name)\n\npub type Handler =\n  fn(Int) -> Int\n\npub fn same(x: a) -> a {\n  x\n}\n\npub fn twice(x: Int) -> Int {\n  x + x\n}\n\npub type Inner {\n  Inner(v: Int, w: String)\n}\n\npub type Outer {\n  Outer(inner: Inner, n: Int)\n}\n\npub fn outer() -> Outer {\n  Outer(Inner(1, \"s\"), 2)\n}\n".to_string();
     let mut g = G { c, out: String::new(), binders: vec![], env: vec![], tags: vec![], next: 0, f, excluded: BTreeMap::new(), helpers: vec![], lib_helpers: vec![], consts: vec![], tainted: vec![], opaque: vec![], need_known: 0, used_opaque: false };
     g.out.push_str("import lib\n\n");
     g.out.push_str(PRELUDE);
@@ -1407,6 +1446,10 @@ pub fn gen_program(c: &mut Choices, f: &Features) -> Program {
         "fn apply(x: a, f: fn(a) -> b) -> b {\n  f(x)\n}\n\n",
         "fn apply_l(value x: a, with f: fn(a) -> b) -> b {\n  f(x)\n}\n\n",
         "fn render(n: Int) -> String {\n  let _ = n\n  \"r\"\n}\n\n",
+        // the same alias of a function type mentioned twice in one function; the locals are only
+        // passed on (nothing in the body constrains them, the annotations alone give their types)
+        "fn both(hf1: IntFn, kf2: IntFn) {\n  #(hf1, kf2, identity(kf2))\n}\n\n",
+        "fn both_lib(hf3: lib.Handler, kf4: lib.Handler, mf5: IntFn) {\n  let pair6 = #(kf4, mf5)\n  #(hf3, pair6)\n}\n\n",
         // generic without annotations, with locals spelled like top-level functions (a local is not
         // a call: the function must stay generalised whoever calls it)
         "fn shadow(x) {\n  let user0 = x\n  let even = user0\n  even\n}\n\n",
@@ -1445,6 +1488,18 @@ pub fn gen_program(c: &mut Choices, f: &Features) -> Program {
             b.push(Binder { offset: 3, name: "ping".into(), ty: T::Var("c".into()), what: "function", tags: tags.clone(), fn_params: Some(vec![T::Var("a".into()), T::Var("b".into())]) });
             let o = h.find("fn pong").unwrap() + 3;
             b.push(Binder { offset: o, name: "pong".into(), ty: T::Var("c".into()), what: "function", tags, fn_params: Some(vec![T::Var("a".into()), T::Var("b".into())]) });
+        }
+        if h.starts_with("fn both") {
+            let f = T::Fn(vec![T::Int], Box::new(T::Int));
+            let tags = vec!["function", "alias in annotation", "function type through an alias", "the same alias twice in one function"];
+            for (nm, _) in [("hf1", 0), ("kf2", 0), ("hf3", 0), ("kf4", 0), ("mf5", 0)] {
+                if let Some(o) = h.find(&format!("{}: ", nm)) {
+                    b.push(Binder { offset: o, name: nm.into(), ty: f.clone(), what: "annotated parameter", tags: tags.clone(), fn_params: None });
+                }
+            }
+            if let Some(o) = h.find("pair6") {
+                b.push(Binder { offset: o, name: "pair6".into(), ty: T::Tuple(vec![f.clone(), f.clone()]), what: "let binder", tags: tags.clone(), fn_params: None });
+            }
         }
         if h.starts_with("fn mixed") {
             b.push(Binder { offset: 3, name: "mixed".into(), ty: T::Var("b".into()), what: "function", tags: vec!["function", "generic function", "annotated and inferred type variables"], fn_params: Some(vec![T::Var("a".into()), T::Var("b".into())]) });
